@@ -50,3 +50,13 @@ Theorem C06_simulate_is_built_from_what_solve_used :
     exists uf, nth t (snd (fst (fst B))) d = create_ccv uf /\ nth t (snd (snd B)) d' = create_policy uf.
 Proof. exact simulate_built_from_what_solve_used. Qed.
 Print Assumptions C06_simulate_is_built_from_what_solve_used.
+
+(* ---- about the regenerated maximum over the continuous choices (Gen/CCV.v) ----------------------- *)
+From LCM Require Import Base.ArrOps Gen.Argmax Gen.CCV Proofs.ArrLemmas2 Proofs.C06_CCV.
+(* for the same utility and feasibility arrays (which the glue theorem above provides), the maximum   *)
+(* that simulate recomputes together with its position is the maximum that solve stored                *)
+Theorem C06_code_simulated_maximum_is_the_stored_maximum : forall (u : arr val) (f : arr bool),
+  wf u -> wf f -> Forall defined (data u) -> shape f = shape u ->
+  get VUndef (snd (compute_ccv_policy u f)) [] = compute_ccv u f.
+Proof. exact policy_maximum_is_the_stored_maximum. Qed.
+Print Assumptions C06_code_simulated_maximum_is_the_stored_maximum.
